@@ -6,7 +6,7 @@ V = os.path.dirname(os.path.dirname(os.path.abspath(__file__)))
 base = json.load(open(os.path.join(V, "tools", "manifest_base.json")))
 props = [json.loads(l)["id"] for l in open(os.path.join(V, "properties.jsonl")) if l.strip()]
 checks, engines, claimed = [], [], set()
-for f in sorted(glob.glob(os.path.join(V, "checks", "C*.json"))):
+for f in sorted(glob.glob(os.path.join(V, "checks", "C[0-9][0-9].json"))):
     c = json.load(open(f))
     if not c.get("claimed", True):
         continue
